@@ -549,10 +549,13 @@ fn get_many<K: KeyT, V: ValT, const N: usize>(m: &mut M<K, V>, a: &[&str], kv: b
     let qs: [Q; N] = std::array::from_fn(|i| Q(a[i].parse().unwrap()));
     let refs: [&Q; N] = std::array::from_fn(|i| &qs[i]);
     let mut out = Vec::new();
+    // direct oracle, valid for every hasher/eq: the returned `&mut V` are pairwise disjoint
+    let mut addrs: Vec<usize> = Vec::new();
     if kv {
         for (i, x) in m.get_many_key_value_mut(refs).into_iter().enumerate() {
             match x {
                 Some((k, v)) => {
+                    addrs.push(&*v as *const V as usize);
                     out.push(fmt_kv(k, &*v));
                     v.set_v(v.v() + 1000 * (i as u64 + 1));
                 }
@@ -563,12 +566,17 @@ fn get_many<K: KeyT, V: ValT, const N: usize>(m: &mut M<K, V>, a: &[&str], kv: b
         for (i, x) in m.get_many_mut(refs).into_iter().enumerate() {
             match x {
                 Some(v) => {
+                    addrs.push(&*v as *const V as usize);
                     out.push(fmt_v::<K, V>(&*v));
                     v.set_v(v.v() + 1000 * (i as u64 + 1));
                 }
                 None => out.push("-".into()),
             }
         }
+    }
+    addrs.sort_unstable();
+    if std::mem::size_of::<V>() != 0 && addrs.windows(2).any(|w| w[0] == w[1]) {
+        return format!("{} ORACLE-ALIAS(get_many_mut_returned_two_mutable_references_to_one_value)", out.join(","));
     }
     out.join(",")
 }
